@@ -341,6 +341,22 @@ func c10(r *vlib.Run) int {
 			inputs[i] = c10Input{Hex: fmt.Sprintf("%x", encodeCommand(q)+encodeCommand("cat "+dir+"/lines3000.log regex:noop ")), Class: "valid-sequence/map-generic,cat-until-done"}
 		}
 	}
+	// the same with every log format name the parser factory knows (also the ones that are only place-holders), with
+	// and without set and where clauses: whatever a format's parser returns for a line (fields, an error, nothing), the
+	// stages behind it must cope
+	formats := []string{"generic", "generickv", "csv", "default", "custom1", "custom2", "mimecast", "mimecastgeneric"}
+	for i := range inputs {
+		if k := i % c10Batch; k >= c10Batch-8 && i >= c10Batch {
+			f := formats[(i/c10Batch+k)%len(formats)]
+			q := []string{
+				"map select count($line),last($x) group by $x set $x = maskdigits($line) logformat " + f,
+				"map select count($line) group by $hostname logformat " + f,
+				"map select count($line),max($y) set $y = 42 where $line contains \"e\" logformat " + f,
+				"map select $line,count($line) from STATS group by $line set $z = md5sum($line) logformat " + f + " interval 1",
+			}[(i/c10Batch/len(formats)+k)%4]
+			inputs[i] = c10Input{Hex: fmt.Sprintf("%x", encodeCommand(q)+encodeCommand("cat "+dir+"/lines3000.log regex:noop ")), Class: "valid-sequence/map-logformat-" + f + ",cat-until-done"}
+		}
+	}
 	cases := make([]interface{}, len(inputs))
 	for i := range inputs {
 		cases[i] = inputs[i]
